@@ -2,6 +2,9 @@
 from . import batcher, common, mir
 
 
+OVERLAYS = ('K3',)
+
+
 def run(chk):
     P = mir.Program("K1")
     chk.use_program(P)
